@@ -1,4 +1,5 @@
 import AggkitModel.Model.LastGER
+import AggkitModel.Generated.SyncFacts
 /-
 C16 — the injected-GER index reflects what was really injected on L2 (PP mode).
 For every L2 chain (at most one GER event per block), every sequence of polls with tips advancing by ANY
@@ -656,5 +657,13 @@ theorem C16_fep_latest (leaves : List (Nat × Nat)) (inj : Nat → Bool) (f : FS
 /-- non-vacuity: two polls, the GER map learns leaf 1 between them -/
 example : ((runFEP [(0, 100), (1, 101)] [(5, fun g => g == 100), (9, fun g => g == 100 || g == 101)] {}).st.rows.map
     (fun r => (r.blockNum, r.ger, r.idx))) = [(5, 100, 0), (9, 101, 1)] := by decide
+
+/-- what the model takes from the source (regenerated on every run): inside the injected-GER processor's block
+    transaction every failing statement leaves the function with the error (the only locally handled error is the
+    rollback's own), and the transaction is rolled back unless the commit succeeded — `poll!` = `poll` rests on this -/
+theorem C16_code_facts :
+    Gen.SyncFacts.errHandledLocally_gerProcessor = ["ProcessBlock#2"] ∧
+    Gen.SyncFacts.rollbackGuard_ger = "shouldRollback" ∧
+    Gen.SyncFacts.rollbackFlagFlow_ger = ["shouldRollback := true", "Commit", "shouldRollback = false"] := by decide
 
 end Aggkit.LastGER
